@@ -11,15 +11,15 @@ import (
 type Sort string
 
 const (
-	SInt  Sort = "Int"
-	SBool Sort = "Bool"
-	SStr  Sort = "Str"          // uninterpreted sort of Go strings (slen / sat)
-	SArr  Sort = "(Array Int Int)"
-	SArrB Sort = "(Array Int Bool)"
-	SArrS Sort = "(Array Int Str)"
-	SHInt Sort = "(Array Int (Array Int Int))"
+	SInt   Sort = "Int"
+	SBool  Sort = "Bool"
+	SStr   Sort = "Str" // uninterpreted sort of Go strings (slen / sat)
+	SArr   Sort = "(Array Int Int)"
+	SArrB  Sort = "(Array Int Bool)"
+	SArrS  Sort = "(Array Int Str)"
+	SHInt  Sort = "(Array Int (Array Int Int))"
 	SHBool Sort = "(Array Int (Array Int Bool))"
-	SHStr Sort = "(Array Int (Array Int Str))"
+	SHStr  Sort = "(Array Int (Array Int Str))"
 )
 
 func ArrayOf(elem Sort) Sort { return Sort("(Array Int " + string(elem) + ")") }
